@@ -237,7 +237,13 @@ func genHeader(t *rapid.T, ws, recv bool) hdr {
 			// another clause; here: error in place of the header, which for TCP framing
 			// needs the stream prefix declared on the element itself
 		}
-		h.raw = pre + `<stream:error xmlns:stream="` + wire.StreamNS + `"><` + cond + ` xmlns="urn:ietf:params:xml:ns:xmpp-streams"/></stream:error>`
+		// RFC 6120 4.9.2: descriptive text and an application-specific condition
+		// element (in a namespace of the application) may accompany the defined
+		// condition; the error is still the defined condition
+		extra := rapid.SampledFrom([]string{"", "", `<text xmlns="urn:ietf:params:xml:ns:xmpp-streams" xml:lang="en">go away</text>`,
+			`<overloaded xmlns="urn:example:app-errors"/>`, `<conflict xmlns="urn:example:app-errors">3</conflict>`,
+			`<text xmlns="urn:ietf:params:xml:ns:xmpp-streams">t</text><banned xmlns="urn:example:app-errors"/>`}).Draw(t, "errExtra")
+		h.raw = pre + `<stream:error xmlns:stream="` + wire.StreamNS + `"><` + cond + ` xmlns="urn:ietf:params:xml:ns:xmpp-streams"/>` + extra + `</stream:error>`
 		h.streamEr = cond
 		h.why = "stream error in place of the header"
 		return h
@@ -502,7 +508,7 @@ func TestC12Restart(t *testing.T) {
 		}
 		// second header: which address changes ("resource": the initiating
 		// entity's address differs in nothing but the resourcepart)
-		change := rapid.SampledFrom([]string{"none", "none", "from", "to", "dropfrom", "dropto", "both", "resource"}).Draw(rt, "change")
+		change := rapid.SampledFrom([]string{"none", "none", "from", "to", "dropfrom", "dropto", "both", "resource", "shift"}).Draw(rt, "change")
 		other := jid.MustParse("mallory@evil.example")
 		if (recv && change == "to") || (!recv && change == "from") || change == "both" {
 			other = other.Domain()
@@ -553,6 +559,29 @@ func TestC12Restart(t *testing.T) {
 			from2 = ""
 		case "dropto":
 			to2 = ""
+		case "shift":
+			// the same octets with the boundary between domainpart and
+			// resourcepart moved: example.net -> example.ne/t,
+			// me@example.org/phone -> me@example.orgphone
+			shift := func(j jid.JID) string {
+				var alt jid.JID
+				var err error
+				if r := j.Resourcepart(); r != "" {
+					alt, err = jid.New(j.Localpart(), j.Domainpart()+r, "")
+				} else {
+					d := j.Domainpart()
+					alt, err = jid.New(j.Localpart(), d[:len(d)-1], d[len(d)-1:])
+				}
+				if err != nil || alt.String() == j.String() {
+					return "shifted.invalid"
+				}
+				return alt.String()
+			}
+			if rapid.Bool().Draw(rt, "shiftFrom") {
+				from2 = shift(them)
+			} else {
+				to2 = shift(us)
+			}
 		case "resource":
 			initiator := us
 			if recv {
@@ -610,7 +639,7 @@ func TestC12Restart(t *testing.T) {
 		}); p != "" {
 			fail("%s", p)
 		}
-		changed := change == "from" || change == "to" || change == "both" || change == "resource"
+		changed := change == "from" || change == "to" || change == "both" || change == "resource" || change == "shift"
 		if ran != 1 {
 			fail("the restarting feature ran %d times (harness expectation 1); err=%v output=%q", ran, err, peer.Conn.Output())
 		}
